@@ -14,14 +14,18 @@ mkdir -p "$OUT"
 git -C /repo worktree add -q --detach "$WT" HEAD || exit 2
 trap 'git -C /repo worktree remove --force "$WT" 2>/dev/null' EXIT
 cp -r "$MUT/seeded" "$WT/seeded"
-CMD=$(python3 -c "
+CMD=$(python3 - "$SRC/meta.json" "$MUT" "$WT" <<'PY'
 import json,sys
-d=json.load(open('$SRC/meta.json'))
+d=json.load(open(sys.argv[1]))
 c=d['demo_cmd']
-i=c.find('   (or')
-if i>0: c=c[:i]
-print(c)")
-DEST=$(echo "$CMD" | sed -n 's/^cp seeded\/[AB]\/[^ ]* \([^ ]*\) .*/\1/p')
+for mark in ('   (or', '  (or'):
+    i=c.find(mark)
+    if i>0: c=c[:i]
+print(c.replace(sys.argv[2], sys.argv[3]))
+PY
+)
+DEST=$(echo "$CMD" | sed -n 's/^cp [^ ]*seeded\/[AB]\/[^ ]* \([^ ]*\) .*/\1/p')
+DEST=${DEST#$WT/}
 echo "demo cmd: $CMD"; echo "demo dest: $DEST"
 run_demo() { (cd "$WT" && timeout 600 bash -c "$CMD" > "$1" 2>&1); echo $?; }
 R_CLEAN=$(run_demo "$OUT/demo_clean.log")
